@@ -100,6 +100,20 @@ int main (int argc, char **argv)
 			qsx_capture_report ();
 			printf ("CASE %s\n", qsx_ntok > 1 ? qsx_tok[1] : "?");
 		}
+		else if (!strcmp (op, "RESTART"))
+		{
+			/* a second library session in the same process: everything freed, QSexactClear, QSexactStart;
+			 * the log handler registered at start-up is NOT registered again (the host set it once) */
+			if (P) mpq_QSfree_prob (P);
+			P = NULL;
+			if (KEPT) free_basis (KEPT);
+			KEPT = NULL;
+			free (BN_cs); free (BN_rs); if (BN_norms) mpq_EGlpNumFreeArray (BN_norms);
+			BN_cs = BN_rs = NULL; BN_norms = NULL; BN_ok = 0; BN_n = BN_m = 0;
+			QSexactClear ();
+			QSexactStart ();
+			printf ("RESTART\n");
+		}
 		else if (!strcmp (op, "LP"))
 		{
 			if (P) mpq_QSfree_prob (P);
